@@ -1318,3 +1318,161 @@ Proof.
     destruct (stroke_kind st); apply rr_offset_zero; assumption. }
   unfold spec_c06. rewrite E, Hp. reflexivity.
 Qed.
+
+(* ------------------------------------------------------------------------------------------ *)
+(* C18: half radii on even sides = the ellipse; columns contiguous                                *)
+(* ------------------------------------------------------------------------------------------ *)
+(* ---- C18: half radii on even sides = the ellipse ---- *)
+Lemma threshold_le d : 0 <= d -> rr_diameter_to_threshold d <= d * d.
+Proof. intros. unfold rr_diameter_to_threshold. destruct (d <=? 4); nia. Qed.
+
+(* Ellipse::contains is false outside the ellipse's bounding box *)
+Lemma ellipse_outside_box t a b p :
+  0 <= a -> 0 <= b ->
+  ~ (px t <= px p < px t + 2 * a /\ py t <= py p < py t + 2 * b) ->
+  rr_ellipse_contains t (S (a * 2) (b * 2)) p = false.
+Proof.
+  intros Ha Hb Hout. unfold rr_ellipse_contains, ec_contains, ec_new, rr_center_2x.
+  unfold psub, padd_size, size_sat_sub, sat_sub_u32. cbn [px py sw sh ec_a ec_b ec_threshold].
+  set (u := px p * 2 - (px t * 2 + Z.max (a * 2 - 1) 0)).
+  set (v := py p * 2 - (py t * 2 + Z.max (b * 2 - 1) 0)).
+  pose proof (threshold_le (a * 2) ltac:(lia)) as Ht.
+  assert ((a * 2) * (a * 2) <= u * u /\ (a = 0 \/ (a * 2) * (a * 2) < u * u) \/
+          (b * 2) * (b * 2) <= v * v /\ (b = 0 \/ (b * 2) * (b * 2) < v * v)) as Hfar.
+  { destruct (Z_lt_le_dec (px p) (px t)); [left; unfold u; nia|].
+    destruct (Z_le_gt_dec (px t + 2 * a) (px p)); [left; unfold u; nia|].
+    destruct (Z_lt_le_dec (py p) (py t)); [right; unfold v; nia|].
+    destruct (Z_le_gt_dec (py t + 2 * b) (py p)); [right; unfold v; nia|]. lia. }
+  clearbody u v.
+  destruct (a * 2 * (a * 2) =? b * 2 * (b * 2)) eqn:E; [destruct (a * 2 =? b * 2) eqn:E2|destruct (a * 2 =? b * 2) eqn:E2].
+  - apply Z.ltb_ge. nia.
+  - nia.
+  - nia.
+  - apply Z.ltb_ge. nia.
+Qed.
+
+Lemma half_quadrant_contains t a b q t' p :
+  0 <= a -> 0 <= b ->
+  px t' = (if is_left q then px t else px t + a) -> py t' = (if is_top q then py t else py t + b) ->
+  eq_contains (eq_new t' (S a b) q) p = rr_ellipse_contains t (S (a * 2) (b * 2)) p.
+Proof.
+  intros Ha Hb Hx Hy. unfold eq_contains, rr_ellipse_contains.
+  replace (eq_ellipse (eq_new t' (S a b) q)) with (ec_new (S (a * 2) (b * 2))) by reflexivity.
+  f_equal. f_equal.
+  assert (forall u v : point, px u = px v -> py u = py v -> u = v) as Ext
+    by (intros [ux uy] [vx vy]; cbn [px py]; intros -> ->; reflexivity).
+  apply Ext.
+  - rewrite eq_center_x by (cbn [sw]; lia). unfold rr_center_2x, padd_size, size_sat_sub, sat_sub_u32. cbn [px py sw sh].
+    rewrite Hx. destruct (is_left q); lia.
+  - rewrite eq_center_y by (cbn [sh]; lia). unfold rr_center_2x, padd_size, size_sat_sub, sat_sub_u32. cbn [px py sw sh].
+    rewrite Hy. destruct (is_top q); lia.
+Qed.
+
+Theorem rr_half_eq_ellipse t a b p :
+  point_ok t -> 0 <= 2 * a <= bound -> 0 <= 2 * b <= bound ->
+  rr_contains (RR (R t (S (a * 2) (b * 2))) (radii_equal (S a b))) p =
+  rr_ellipse_contains t (S (a * 2) (b * 2)) p.
+Proof.
+  intros Ht Ha Hb.
+  set (r := RR (R t (S (a * 2) (b * 2))) (radii_equal (S a b))).
+  assert (rr_ok r) as Hok.
+  { unfold r, rr_ok, rect_ok, size_ok, radii_nonneg, radii_equal, sz_nonneg. cbn [rr_rect rr_corners tl sz sw sh r_tl r_tr r_br r_bl].
+    repeat split; try apply Ht; lia. }
+  pose proof (rrc_new_fields r Hok) as F. cbv zeta in F.
+  assert (conf r = radii_equal (S a b)) as Ec.
+  { unfold conf, r. cbn [rr_rect rr_corners sz]. apply confine_fit_id.
+    unfold radii_fit, radii_equal. cbn [r_tl r_tr r_br r_bl sw sh]. lia. }
+  rewrite Ec in F. subst r. unfold radii_equal in *.
+  cbn [rr_rect tl sz sw sh r_tl r_tr r_br r_bl] in F.
+  destruct F as (Frows & Fcols & Fsrl & Fsrr & Ftl & Ftr & Fbr & Fbl).
+  unfold rr_contains, rrc_contains. rewrite Frows, Fcols, Fsrl, Fsrr, Ftl, Ftr, Fbr, Fbl.
+  rewrite !eq_new_bbox. unfold in_rng. cbn [fst snd].
+  rewrite !columns_R by (cbn [px sw]; destruct Ht; unfold bound in *; lia). cbn [fst snd px sw].
+  rewrite (half_quadrant_contains t a b QTopLeft) by (cbn [is_left is_top px py]; lia).
+  rewrite (half_quadrant_contains t a b QTopRight) by (cbn [is_left is_top px py]; lia).
+  rewrite (half_quadrant_contains t a b QBottomLeft) by (cbn [is_left is_top px py]; lia).
+  rewrite (half_quadrant_contains t a b QBottomRight) by (cbn [is_left is_top px py]; lia).
+  destruct ((py t <=? py p) && (py p <? py t + b * 2) && ((px t <=? px p) && (px p <? px t + a * 2))) eqn:Hbox; cbn [negb].
+  - destruct (rr_ellipse_contains t (S (a * 2) (b * 2)) p); cbn [negb andb].
+    + rewrite !andb_false_r. reflexivity.
+    + rewrite !andb_true_r.
+      destruct (py p <? py t + b) eqn:E1; destruct (px p <? px t + a) eqn:E2; cbn [andb]; try reflexivity.
+      * replace (px t + a * 2 - a <=? px p) with true by lia. reflexivity.
+      * replace (py t + b * 2 - b <=? py p) with true by lia. reflexivity.
+      * replace (py t + b * 2 - b <=? py p) with true by lia. cbn [andb].
+        replace (px t + a * 2 - a <=? px p) with true by lia. reflexivity.
+  - symmetry. apply ellipse_outside_box; lia.
+Qed.
+
+(* ---- C18: columns are contiguous ---- *)
+Definition side_test (q : equad) (left : bool) (x : Z) : bool :=
+  if left then x <? snd (columns (eq_bbox q)) else fst (columns (eq_bbox q)) <=? x.
+Definition cond_top (q : equad) (start : Z) (left : bool) (p : point) : bool :=
+  negb ((py p <? start) && side_test q left (px p) && negb (eq_contains q p)).
+Definition cond_bot (q : equad) (stop : Z) (left : bool) (p : point) : bool :=
+  negb ((stop <=? py p) && side_test q left (px p) && negb (eq_contains q p)).
+
+Lemma rrc_contains_and c p :
+  rrc_contains c p =
+  in_rng (c_rows c) (py p) && in_rng (c_columns c) (px p) &&
+  cond_top (c_tl c) (fst (c_srl c)) true p && cond_top (c_tr c) (fst (c_srr c)) false p &&
+  cond_bot (c_bl c) (snd (c_srl c)) true p && cond_bot (c_br c) (snd (c_srr c)) false p.
+Proof.
+  unfold rrc_contains, cond_top, cond_bot, side_test.
+  destruct (in_rng (c_rows c) (py p)); cbn [andb negb]; [|reflexivity].
+  destruct (in_rng (c_columns c) (px p)); cbn [andb negb]; [|reflexivity].
+  repeat match goal with
+  | |- context [?a <? ?b] => destruct (a <? b); cbn [andb negb orb]
+  | |- context [?a <=? ?b] => destruct (a <=? b); cbn [andb negb orb]
+  | |- context [eq_contains ?q ?p] => destruct (eq_contains q p); cbn [andb negb orb]
+  end; reflexivity.
+Qed.
+
+Lemma cond_top_up t rad qd left x y y' :
+  is_top qd = true -> 0 <= sh rad -> py t <= y <= y' ->
+  cond_top (eq_new t rad qd) (py t + sh rad) left (P x y) = true ->
+  cond_top (eq_new t rad qd) (py t + sh rad) left (P x y') = true.
+Proof.
+  intros Hq Hb Hy. unfold cond_top. cbn [px py].
+  destruct (y' <? py t + sh rad) eqn:E'; cbn [andb negb]; [|reflexivity].
+  replace (y <? py t + sh rad) with true by lia. cbn [andb].
+  destruct (side_test (eq_new t rad qd) left x); cbn [andb negb]; [|reflexivity].
+  rewrite !negb_involutive. apply (eq_top_mono t rad qd x Hq Hb); lia.
+Qed.
+
+Lemma cond_bot_down t rad qd left x y y' :
+  is_top qd = false -> 0 <= sh rad -> y' <= y < py t + sh rad ->
+  cond_bot (eq_new t rad qd) (py t) left (P x y) = true ->
+  cond_bot (eq_new t rad qd) (py t) left (P x y') = true.
+Proof.
+  intros Hq Hb Hy. unfold cond_bot. cbn [px py].
+  destruct (py t <=? y') eqn:E'; cbn [andb negb]; [|reflexivity].
+  replace (py t <=? y) with true by lia. cbn [andb].
+  destruct (side_test (eq_new t rad qd) left x); cbn [andb negb]; [|reflexivity].
+  rewrite !negb_involutive. apply (eq_bottom_mono t rad qd x Hq Hb); lia.
+Qed.
+
+Theorem rr_col_contiguous r x y1 y2 y3 :
+  rr_ok r -> y1 <= y2 <= y3 ->
+  rr_contains r (P x y1) = true -> rr_contains r (P x y3) = true -> rr_contains r (P x y2) = true.
+Proof.
+  intros Hok Hy. pose proof (rrc_new_fields r Hok) as F. cbv zeta in F.
+  destruct F as (Frows & Fcols & Fsrl & Fsrr & Ftl & Ftr & Fbr & Fbl).
+  destruct (conf_facts r Hok) as [Hnn Hfit].
+  destruct Hnn as ((A1 & B1) & (A2 & B2) & (A3 & B3) & (A4 & B4)).
+  unfold rr_contains. rewrite !rrc_contains_and. rewrite Frows, Fcols, Fsrl, Fsrr, Ftl, Ftr, Fbr, Fbl.
+  cbn [fst snd px py]. unfold in_rng. cbn [fst snd].
+  set (x0 := px (tl (rr_rect r))) in *. set (y0 := py (tl (rr_rect r))) in *.
+  set (w := sw (sz (rr_rect r))) in *. set (h := sh (sz (rr_rect r))) in *. set (c := conf r) in *.
+  intros H1 H3. apply andb_prop in H1, H3. destruct H1 as [H1 Hbr1], H3 as [H3 Hbr3].
+  apply andb_prop in H1, H3. destruct H1 as [H1 Hbl1], H3 as [H3 Hbl3].
+  apply andb_prop in H1, H3. destruct H1 as [H1 Htr1], H3 as [H3 Htr3].
+  apply andb_prop in H1, H3. destruct H1 as [H1 Htl1], H3 as [H3 Htl3].
+  apply andb_true_intro; split; [apply andb_true_intro; split; [apply andb_true_intro; split; [apply andb_true_intro; split; [lia|]|]|]|].
+  - apply (cond_top_up (P x0 y0) (r_tl c) QTopLeft true x y1 y2); [reflexivity|lia|cbn [py]; lia|exact Htl1].
+  - apply (cond_top_up (P (x0 + w - sw (r_tr c)) y0) (r_tr c) QTopRight false x y1 y2); [reflexivity|lia|cbn [py]; lia|exact Htr1].
+  - replace (y0 + h - sh (r_bl c)) with (py (P x0 (y0 + h - sh (r_bl c)))) in * by reflexivity.
+    apply (cond_bot_down _ (r_bl c) QBottomLeft true x y3 y2); [reflexivity|lia|cbn [py]; lia|exact Hbl3].
+  - replace (y0 + h - sh (r_br c)) with (py (P (x0 + w - sw (r_br c)) (y0 + h - sh (r_br c)))) in * by reflexivity.
+    apply (cond_bot_down _ (r_br c) QBottomRight false x y3 y2); [reflexivity|lia|cbn [py]; lia|exact Hbr3].
+Qed.
